@@ -97,10 +97,24 @@ func verifDatagram(tag string) (data []byte, authentic bool) {
 		return data, false
 	}
 	length := int(binary.BigEndian.Uint16(data[2:4]))
-	if length < 20 || length > n {
+	if length < 20 {
 		return data, false
 	}
 	delta := ndBytes(tag+".delta", 16)
+	if length > n {
+		// truncated datagram: never authentic. Its (arbitrary) authenticator is written relative to the hash of the
+		// datagram continued with the zero bytes a fresh receive buffer holds - again a bijection on authenticators,
+		// chosen so that "accepted because the missing tail happened to match the buffer" replays with the real MD5
+		if length-n > 32 {
+			return data, false
+		}
+		tail := append(append([]byte(nil), data[20:]...), make([]byte, length-n)...)
+		exp := verifRefAuth(data[:4], make([]byte, 16), tail)
+		for i := 0; i < 16; i++ {
+			data[4+i] = exp[i] ^ delta[i]
+		}
+		return data, false
+	}
 	exp := verifRefAuth(data[:4], make([]byte, 16), data[20:length])
 	acc := byte(0)
 	for i := 0; i < 16; i++ {
@@ -213,3 +227,26 @@ func init() {
 	vHarness["VerifC15_OneDatagram"] = VerifC15_OneDatagram
 	vHarness["VerifC15_TwoDatagrams"] = VerifC15_TwoDatagrams
 }
+
+// Two authentic requests from the same source, back to back, with arbitrary (possibly equal) identifiers and
+// arbitrary contents: each is handled exactly once and each reply verifies against the request it answers.
+func VerifC15_TwoRequests() {
+	calls := 0
+	var last *CoARequest
+	s := verifCoAServer(&calls, &last)
+	d1, a1 := verifDatagram("d1")
+	vAssume(a1 && (d1[0] == CodeCoARequest || d1[0] == CodeDisconnectRequest))
+	d2, a2 := verifDatagram("d2")
+	vAssume(a2 && (d2[0] == CodeCoARequest || d2[0] == CodeDisconnectRequest))
+	r1, r2 := append([]byte(nil), d1...), append([]byte(nil), d2...)
+	out := verifDeliver(s, [][]byte{d1, d2})
+	vAssert(calls == 2, "two authentic requests were not handled once each")
+	vAssert(len(out) == 2, "two authentic requests were not answered once each")
+	if len(out) == 2 {
+		verifCheckResponse(out[0], r1)
+		verifCheckResponse(out[1], r2)
+	}
+	vReach("end")
+}
+
+func init() { vHarness["VerifC15_TwoRequests"] = VerifC15_TwoRequests }
